@@ -117,6 +117,21 @@ func c19AssignedIn(info *types.Info, nodes ...ast.Node) map[types.Object]token.P
 				if s.Op == token.AND {
 					add(s.X, s.Pos())
 				}
+			case *ast.CallExpr:
+				// a method with a pointer receiver called on an addressable variable may assign it (`w.narrow(…)`)
+				if sel, ok := ast.Unparen(s.Fun).(*ast.SelectorExpr); ok {
+					if sl := info.Selections[sel]; sl != nil && sl.Kind() == types.MethodVal {
+						if fn, ok := sl.Obj().(*types.Func); ok {
+							if recv := fn.Type().(*types.Signature).Recv(); recv != nil {
+								if _, isPtr := recv.Type().(*types.Pointer); isPtr {
+									if _, argPtr := info.TypeOf(sel.X).(*types.Pointer); !argPtr {
+										add(sel.X, s.Pos())
+									}
+								}
+							}
+						}
+					}
+				}
 			}
 			return true
 		})
@@ -507,6 +522,10 @@ func (rs *c19Resolver) lin(fr *c19Frame, e ast.Expr, depth int) *c19Lin {
 				ro := rs.rootVar(fr, o, 0)
 				return atom(c19SeqKey(ro), ro.Name()+"."+rs.m.seqField.Name())
 			}
+			// a bound held in a struct field: `r.lower.SeqNum`
+			if f := rs.m.boundOf(x.X); f != nil {
+				return atom(c19SeqKey(f), f.Name()+"."+rs.m.seqField.Name())
+			}
 		}
 	}
 	return atom(fmt.Sprintf("e%p", e), src(rs.m.fset, e))
@@ -666,7 +685,7 @@ func (m *c19Model) seqVarsIn(e ast.Expr) []types.Object {
 	var out []types.Object
 	ast.Inspect(e, func(n ast.Node) bool {
 		if sel, ok := n.(*ast.SelectorExpr); ok && fieldOf(m.info, sel) == m.seqField {
-			if o := objOf(m.info, sel.X); o != nil {
+			if o := m.boundOf(sel.X); o != nil {
 				out = append(out, o)
 			}
 		}
@@ -1306,7 +1325,7 @@ func c19M2(r *core.R) {
 					if dir > 0 {
 						want, wantSrc = hi, v.Name()+" < "+hi.Name()+".SeqNum"
 					}
-					if _, moved := c19OuterVariedBefore(info, outer, want, s.site); moved {
+					if _, moved := c19OuterVariedBefore(m, outer, want, s.site); moved {
 						r.Bad(c, s.loop.Pos(), "the bound %s is reassigned before or inside the scan", want.Name())
 						return
 					}
@@ -1539,7 +1558,7 @@ func c19M2(r *core.R) {
 					for _, n := range b.Nodes {
 						if ret, ok := n.(*ast.ReturnStmt); ok && isSuccess(ret) {
 							anyRet = ret
-							if objOf(info, ret.Results[0]) != hi && badRet == nil {
+							if m.boundOf(ret.Results[0]) != hi && badRet == nil {
 								badRet = ret
 							}
 						}
@@ -1556,12 +1575,8 @@ func c19M2(r *core.R) {
 						again = true
 						return false
 					}
-					if as, ok := n.(*ast.AssignStmt); ok && update == nil {
-						for _, l := range as.Lhs {
-							if o := objOf(info, l); o == lo || o == hi {
-								update = n
-							}
-						}
+					if _, isRet := n.(*ast.ReturnStmt); !isRet && update == nil && (m.assignsBound(n, lo, 0) || m.assignsBound(n, hi, 0)) {
+						update = n
 					}
 					if ret, ok := n.(*ast.ReturnStmt); ok && isSuccess(ret) && exhaustedRet == nil {
 						exhaustedRet = ret
@@ -1573,7 +1588,7 @@ func c19M2(r *core.R) {
 					r.Unknown(c, outer.Pos(), "no `return <state>, …` is reachable from the binary-search loop in %s", fname)
 				case badRet != nil && badRet != exhaustedRet:
 					r.Bad(c, badRet.Pos(), "the search can end with `%s`, which is not the upper bound %s of `%s`. The loop keeps %s.Timestamp < t <= %s.Timestamp, so the first state at or after t is %s", src(fs, badRet), hi.Name(), src(fs, boundCond), lo.Name(), hi.Name(), hi.Name())
-				case exhaustedRet != nil && objOf(info, exhaustedRet.Results[0]) != hi:
+				case exhaustedRet != nil && m.boundOf(exhaustedRet.Results[0]) != hi:
 					r.Bad(c, exhaustedRet.Pos(), "with every state file strictly between %s and %s missing (all probes of one iteration find nothing) the search answers `%s`, but its normal exit answers %s. The loop keeps %s.Timestamp < t <= %s.Timestamp, so `%s` is not the first state at or after t (e.g. states {1,9,10}, t between 1 and 9: the answer must be 9)",
 						lo.Name(), hi.Name(), src(fs, exhaustedRet), hi.Name(), lo.Name(), hi.Name(), src(fs, exhaustedRet.Results[0]))
 				case update != nil:
@@ -1607,13 +1622,14 @@ func c19M2(r *core.R) {
 }
 
 // outerVariedBefore: the bound variable is assigned inside the binary-search loop body at or before the scan site.
-func c19OuterVariedBefore(info *types.Info, outer *ast.ForStmt, want types.Object, site ast.Node) (token.Pos, bool) {
+func c19OuterVariedBefore(m *c19Model, outer *ast.ForStmt, want types.Object, site ast.Node) (token.Pos, bool) {
 	found := token.NoPos
 	ast.Inspect(outer.Body, func(n ast.Node) bool {
-		if as, ok := n.(*ast.AssignStmt); ok && as.Pos() <= site.End() {
-			for _, l := range as.Lhs {
-				if objOf(info, l) == want {
-					found = as.Pos()
+		if st, ok := n.(ast.Stmt); ok && st.Pos() <= site.End() {
+			switch st.(type) {
+			case *ast.AssignStmt, *ast.ExprStmt:
+				if m.assignsBound(st, want, 0) {
+					found = st.Pos()
 				}
 			}
 		}
